@@ -41,6 +41,9 @@ type mItem struct {
 
 	lead, line []string // attached comments
 	isNew      bool
+	// leadOnOpenLine: the first lead comment stands on the line of the enclosing block's
+	// "{" (blk { # comment), i.e. it also carries that line's end
+	leadOnOpenLine bool
 }
 
 type mBody struct {
@@ -106,7 +109,7 @@ func (mb *modelBuilder) idxAt(pos int, from int) int {
 
 // buildModel parses text with the native parser and returns its model; ok=false with the
 // diagnostics text when it does not parse.
-func buildModel(src []byte) (*mBody, *hclsyntax.File, []ltok, string) {
+func buildModel(src []byte) (*mBody, *hcl.File, []ltok, string) {
 	nf, diags := hclsyntax.ParseConfig(src, "c20", hcl.InitialPos)
 	if diags.HasErrors() {
 		sum := "?"
@@ -186,6 +189,9 @@ func (mb *modelBuilder) body(nb *hclsyntax.Body, lo, hi int) *mBody {
 		}
 		mb.standalone(b, p, ls)
 		it := &mItem{}
+		if ls < fi && ls == lo && lo > 0 && mb.toks[lo-1].typ == hclsyntax.TokenOBrace {
+			it.leadOnOpenLine = true
+		}
 		for j := ls; j < fi; j++ {
 			it.lead = append(it.lead, string(mb.toks[j].bytes))
 		}
